@@ -61,6 +61,8 @@ def generate(seed, tier):
         return gen_directory(rng, tier)
     if r0 < 0.63:
         return gen_reuse(rng, tier)
+    if r0 < 0.70:
+        return gen_cli_vs_api(rng, tier)
     n = rng.choice([1, 2, 2, 3, 3, 4])
     sess = [sl.gen_session(rng, tier, i) for i in range(n)]
     faults = []
@@ -120,6 +122,33 @@ def gen_directory(rng, tier):
     return d
 
 
+ORDER_SENSITIVE = [
+    [["filter_by_length", {"filteroperator": "lt", "filtervalue": 3}], ["punctuation_delete", {}]],
+    [["punctuation_delete", {}], ["filter_by_length", {"filteroperator": "lt", "filtervalue": 3}]],
+    [["negra_mark_heads", {}], ["root_attach", {}], ["negra_mark_heads", {}], ["boyd_split", {}],
+     ["raising", {}]],
+    [["punctuation_root", {}], ["root_attach", {}]],
+    [["add_topnode", {}], ["root_attach", {}]],
+    [["collapse_unary_chains", {}], ["add_topnode", {}]],
+    [["ptb_delete_traces", {}], ["filter_by_length", {"filteroperator": "gt", "filtervalue": 4}]],
+]
+
+
+def gen_cli_vs_api(rng, tier):
+    """The `transform` command and the same pipeline through the library functions must write
+    the same file: the command line adds nothing but argument parsing."""
+    fmt = rng.choice(["export", "tigerxml", "discobrackets", "brackets"])
+    tb = sl.gen_tb(rng, tier, continuous=(fmt == "brackets"), nsent=rng.choice([2, 3, 5]))
+    for s in tb:
+        for t in s["tokens"]:
+            if rng.random() < 0.15:
+                t[0] = rng.choice([",", ".", "``", "''"])
+    trans = [list(x) for x in rng.choice(ORDER_SENSITIVE + sl.TRANS_PIPELINES[:11])]
+    return {"mode": "cli_vs_api", "fmt": fmt, "tb": tb, "trans": trans,
+            "dest_fmt": rng.choice(["export", "terminals", "discobrackets", "tigerxml"]),
+            "layout": rng.randrange(1 << 30), "io_seed": rng.randrange(1 << 30)}
+
+
 def gen_reuse(rng, tier):
     """A tree object is handed to a writer (or to extraction / analysis) and then used again:
     what the second call produces must be what it produces for that sentence in a fresh
@@ -134,8 +163,12 @@ def gen_reuse(rng, tier):
             if rng.random() < 0.2:
                 t[0] = rng.choice(model.W_XML + model.W_PAREN[:8])
     second = rng.choice(["export", "tigerxml", "discobrackets", "terminals", "extract",
-                         "gapdegree", "trans+export"])
-    return {"mode": "reuse", "tb": tb, "first": w1, "second": second,
+                         "gapdegree", "trans+export", "disco_order"])
+    failing = w1 in ("export", "tigerxml", "discobrackets", "terminals") and rng.random() < 0.3
+    if failing:
+        # the first write goes to an ASCII stream and meets a word it cannot encode
+        tb[0]["tokens"][-1][0] = rng.choice(["Käse", "Straße"])
+    return {"mode": "reuse", "tb": tb, "first": w1, "second": second, "first_fails": failing,
             "first_opts": {"export_four": True} if w1 == "export" and rng.random() < 0.5 else {},
             "shuffle": rng.randrange(1 << 30)}
 
@@ -378,6 +411,56 @@ def execute_directory(sc, sim):
     return {"violations": viols, "stats": st.done(repr(shape), True, sample)}
 
 
+def execute_cli_vs_api(sc, sim):
+    st = cm.Stats()
+    st.declare("command_line_vs_library_pipeline", "order_sensitive_pipeline")
+    fmt, dfmt = sc["fmt"], sc["dest_fmt"]
+    codec, ext = sl.SRC[fmt]
+    path = "/sim/w/c/in" + ext
+    data = cm.render_file({"tb": sc["tb"], "codec": codec, "layout": sc["layout"], "enc": "utf-8"})
+    trans = sc["trans"]
+    params = {}
+    for t in trans:
+        params.update(t[1])
+    argv = ["transform", path, "/sim/w/c/out", "--src-format", fmt, "--dest-format", dfmt,
+            "--src-opts", "quiet"]
+    if trans:
+        argv += ["--trans"] + [t[0] for t in trans]
+    if params:
+        argv += ["--params"] + ["%s:%s" % (k, v) if v is not True else k
+                                for k, v in sorted(params.items())]
+    body = [["trans", "t", t[0], params] for t in trans] + [["write", dfmt, "t", "o", {}]]
+    api = [["reader", "r", fmt, path, "utf-8", {"quiet": True}], ["wopen", "o", "/sim/w/c/out",
+                                                                  "utf-8"],
+           ["wbegin", dfmt, "o", {}], ["loop", "r", "t", body], ["wend", dfmt, "o", {}],
+           ["wclose", "o"]]
+    base = {"files": {path: data}, "dirs": ["/sim/w/c"], "io_seed": sc["io_seed"]}
+    a = sim.run(dict(base, sessions=[{"id": "s", "ops": [["cli", argv]]}]))
+    b = sim.run(dict(base, sessions=[{"id": "s", "ops": api}]))
+    st.add_obs(a)
+    st.add_obs(b)
+    st.probe("command_line_vs_library_pipeline")
+    if len(trans) >= 2:
+        st.probe("order_sensitive_pipeline")
+    ra = a["sessions"]["s"][0]
+    cli_failed = "exc" in ra or ra["ok"].get("exit") != 0
+    api_failed = any("exc" in r for r in b["sessions"]["s"])
+    viols = []
+    st.check("cli_vs_api_pairs")
+    tag = "+".join(t[0] for t in trans) or "none"
+    if cli_failed != api_failed:
+        viols.append(cm.viol("C18/cli-vs-api/outcome-differs", trans=tag, cli_failed=cli_failed,
+                             api_failed=api_failed, msg=ra.get("msg")))
+    elif not cli_failed and a["files"].get("/sim/w/c/out") != b["files"].get("/sim/w/c/out"):
+        viols.append(cm.viol("C18/cli-vs-api/output-differs", trans=tag, dest_fmt=dfmt,
+                             sizes=[len(a["files"].get("/sim/w/c/out") or b""),
+                                    len(b["files"].get("/sim/w/c/out") or b"")]))
+    shape = ("cli_vs_api", fmt, dfmt, tag)
+    sample = {"mode": "cli_vs_api", "fmt": fmt, "dest_fmt": dfmt, "trans": tag,
+              "sentences": cm.tb_summary(sc["tb"])}
+    return {"violations": viols, "stats": st.done(repr(shape), True, sample)}
+
+
 def reuse_ops(sc, with_first):
     ops = []
     for j, sent in enumerate(sc["tb"]):
@@ -388,6 +471,9 @@ def reuse_ops(sc, with_first):
                 ops += [["gnew", "g0"], ["extract", "t", "g0"]]
             elif f == "gapdegree":
                 ops += [["task_new", "k0", "GapDegree"], ["task_run", "k0", "t"]]
+            elif sc.get("first_fails"):
+                ops += [["wopen", "a", "/sim/w/first%d.out" % j, "ascii"],
+                        ["write", f, "t", "a", sc.get("first_opts", {})]]
             else:
                 ops += [["sio", "a"], ["write", f, "t", "a", sc.get("first_opts", {})]]
         ops.append(["mark", "second"])
@@ -396,6 +482,9 @@ def reuse_ops(sc, with_first):
             ops += [["gnew", "g"], ["extract", "t", "g"], ["gdump", "g"]]
         elif x == "gapdegree":
             ops += [["task_new", "k", "GapDegree"], ["task_run", "k", "t"], ["task_done", "k"]]
+        elif x == "disco_order":
+            ops += [["trans", "t", "negra_mark_heads", {}], ["trans", "t", "binarize", {}],
+                    ["call", "disco_order", "t", "left"]]
         elif x == "trans+export":
             ops += [["trans", "t", "root_attach", {}], ["sio", "b"],
                     ["write", "export", "t", "b", {}], ["sval", "b"]]
@@ -424,7 +513,7 @@ def execute_reuse(sc, sim):
                 take = False
                 continue
             if take and r["op"] in ("sval", "gdump", "task_done", "write", "extract", "trans",
-                                    "task_run"):
+                                    "task_run", "call"):
                 if "exc" in r:
                     out.append((r["op"], "raised", r["exc"]))
                 elif r["op"] == "trans":
@@ -473,6 +562,8 @@ def execute(sc, sim):
         return execute_directory(sc, sim)
     if sc["mode"] == "reuse":
         return execute_reuse(sc, sim)
+    if sc["mode"] == "cli_vs_api":
+        return execute_cli_vs_api(sc, sim)
     st = cm.Stats()
     st.declare("three_plus_sessions_interleaved", "two_readers_same_format_alive",
                "history_length_3plus", "history_contains_failed_call", "cancellation_mid_file",
@@ -917,6 +1008,17 @@ def cmp_seq(exp, got, dfmt, sc, tag, what, ignore_sid=None):
 
 # ---------------------------------------------------------------------------------- shrink
 def shrink_candidates(sc):
+    if sc["mode"] == "cli_vs_api":
+        for tb in model.shrink_treebank(sc["tb"]):
+            if tb:
+                c = model.clone(sc)
+                c["tb"] = tb
+                yield c
+        for i in range(len(sc["trans"])):
+            c = model.clone(sc)
+            del c["trans"][i]
+            yield c
+        return
     if sc["mode"] == "reuse":
         for tb in model.shrink_treebank(sc["tb"]):
             if tb:
